@@ -105,6 +105,19 @@ def parse_records(text):
     return recs
 
 
+def _parse_trace(t):
+    out = []
+    for c in t.strip(";").split(";"):
+        if c:
+            a, _, k = c.partition("/")
+            out.append((int(a), int(k or 0)))
+    return out
+
+
+def _same_steps(steps, events):
+    return len(steps) == len(events) and all(a == e.aid and (k == e.times or e.type not in MULTI) for (a, k), e in zip(steps, events))
+
+
 _FAILING_RE = re.compile(r"^\d+:B\d+:")
 
 
@@ -129,6 +142,7 @@ class McResult:
         self.unacked = 0          # terminal states the application ran into but the checker did not explore
         self.ended_unlogged = 0   # executions the checker says it completed without a matching record of the application
         self.records_all = None
+        self.join_inconsistent = False   # the traces printed by the checker do not match those of the application
         self.explored = []        # complete executions explored, with the multiplicity the checker reports
 
     def verdict(self):
@@ -137,52 +151,57 @@ class McResult:
         return {0: "ok", 1: "safety", 2: "deadlock", 3: "rc3", 4: "crash", 5: "rc5", 6: "rc6", 63: "rc63"}.get(self.rc, "rc%s" % self.rc)
 
     def ack(self):
-        """Tell the terminal states that the checker *explored* from those the application merely ran into.
+        """Tell the complete executions that the checker *explored* from what the application merely ran into.
 
         The explorers may ask the application to "go one way": it then runs ahead on its own to the end of an
         arbitrary execution and the checker consumes what it sent lazily - or drops it when it backtracks earlier;
-        replays walk through terminal states again.  So the application may log a terminal state that the checker
-        never explored, and logs some of them several times.  Explored executions are those the checker says it
-        explored: "Execution came to an end at <trace>" (verbose log of the DFS / BeFS explorers, one line per
-        exploration: multiplicity is meaningful), the path of a deadlock report (printed again while the DFS unwinds:
-        multiplicity is not meaningful, each distinct deadlocked execution counts once), the path of an
-        assertion-failure report.  UDPOR prints none of these: each distinct logged terminal state counts once."""
+        replays walk through terminal states again.  So the application logs some terminal states several times and
+        may log one that the checker never explored.  Records are therefore made distinct by (kind, trace), and the
+        successful executions (END) are matched with the lines "Execution came to an end at <trace>" that the DFS and
+        BeFS explorers print once per completed exploration: their multiplicity is the number of times the execution
+        was explored.  When that join is not one-to-one (the BeFS explorer prints truncated record traces after a
+        backtrack), every distinct logged execution counts once.  Deadlocked executions count once each (the deadlock
+        report is printed again while the DFS unwinds, its multiplicity means nothing).  UDPOR prints none of these."""
         seen = {}
         for r in self.records:
             seen.setdefault((r.kind, r.trace.rstrip(";")), r)
         self.records_all = self.records
+        distinct = list(seen.values())
+        ends = [r for r in distinct if r.kind == "END"]
+        others = [r for r in distinct if r.kind != "END"]
+        deadlocks = [r for r in distinct if r.kind == "DEADLOCK"]
         if self.ended is None:
-            self.records = list(seen.values())
-            self.explored = [r for r in self.records if r.kind in ("END", "DEADLOCK")]
+            self.records = distinct
+            self.explored = ends + deadlocks
             return
-        dl = set(p for k, p in self.paths if k == "DEADLOCK")
-        asr = set(p for k, p in self.paths if k == "ASSERT")
-        keep = []
-        self.explored = []
-        by_end = {t: r for (k, t), r in seen.items() if k == "END"}
+        by_end = {r.trace.rstrip(";"): r for r in ends}
+        matched = []
         for t in self.ended:
             r = by_end.get(t)
             if r is None and len(t) >= 100:                  # DFS prints at most 100 characters of the trace
                 cands = [x for tt, x in by_end.items() if tt.startswith(t)]
                 r = cands[0] if len(cands) == 1 else None
             if r is None:
-                self.ended_unlogged += 1                     # the checker explored it, the application did not log it
+                # the trace of the checker may carry a stale times_considered on a single-outcome transition
+                # (ODPOR executes e.g. "iSend with times_considered 1"): compare what selects an outcome only
+                steps = _parse_trace(t)
+                cands = [x for x in ends if _same_steps(steps, x.events)]
+                r = cands[0] if len(cands) == 1 else None
+            if r is None:
+                self.ended_unlogged += 1                     # no record of the application with that trace
             else:
-                self.explored.append(r)
-        ended = set(id(r) for r in self.explored)
-        for (k, t), r in seen.items():
-            if k == "END":
-                r.acked = id(r) in ended
-            elif k == "DEADLOCK":
-                r.acked = t in dl
-                if r.acked:
-                    self.explored.append(r)
-            else:
-                r.acked = t in asr
-            if r.acked:
-                keep.append(r)
-        self.unacked = len(seen) - len(keep)
-        self.records = keep
+                matched.append(r)
+        if self.ended_unlogged == 0:
+            ok = set(id(r) for r in matched)
+            for r in ends:
+                r.acked = id(r) in ok
+            self.unacked = sum(1 for r in ends if not r.acked)
+            self.records = [r for r in ends if r.acked] + others
+            self.explored = matched + deadlocks
+        else:
+            self.join_inconsistent = True
+            self.records = distinct
+            self.explored = ends + deadlocks
 
     def outcomes(self):
         """Set of (kind, fingerprint) of the terminal records: the program-visible outcomes that were reached.
